@@ -24,6 +24,21 @@ import (
 )
 
 // Convert a sector ID to an absolute file position
+var errBadChain = errors.New("sector chain leaves the allocation table or loops")
+
+// chainNext returns the sector that follows sector in the chain described by
+// sat. steps counts the links followed so far: a chain longer than its table
+// must contain a loop.
+func chainNext(sat []SecID, sector SecID, steps *int) (SecID, error) {
+	if sector < 0 || int(sector) >= len(sat) {
+		return 0, errBadChain
+	}
+	if *steps++; *steps > len(sat) {
+		return 0, errBadChain
+	}
+	return sat[sector], nil
+}
+
 func (r *ComDoc) sectorToOffset(sector SecID) int64 {
 	if sector < 0 {
 		return -1
@@ -129,19 +144,22 @@ func (r *ComDoc) makeFreeSectors(count int, short bool) []SecID {
 // there are no more sectors.
 func (r *ComDoc) readSAT() error {
 	count := r.SectorSize / 4
-	sat := make([]SecID, count*int(r.Header.SATSectors))
-	position := 0
+	// grow the table as sectors are actually read instead of sizing it by
+	// the (untrusted) sector count in the header
+	limit := int64(count) * int64(r.Header.SATSectors)
+	var sat []SecID
+	chunk := make([]SecID, count)
 	for _, sector := range r.MSAT {
 		if sector < 0 {
 			continue
 		}
-		if position >= len(sat) {
+		if int64(len(sat)) >= limit {
 			return errors.New("msat has more sectors than indicated")
 		}
-		if err := r.readSectorStruct(sector, sat[position:position+count]); err != nil {
+		if err := r.readSectorStruct(sector, chunk); err != nil {
 			return err
 		}
-		position += count
+		sat = append(sat, chunk...)
 	}
 	r.SAT = sat
 	return nil
